@@ -557,6 +557,8 @@ class World:
             self.probe("single_row_frame")
         if op.get("refilled"):
             self.probe("eval_after_refill")
+        if op.get("reuse"):
+            self.probe("eval_on_reused_frame_object")
         obs = None
         if outcome == "raise":
             root["failed_eval"] = True
